@@ -491,6 +491,12 @@ Definition mo_defaults (dim mu lambda : nat) : mparams :=
 Record mstate := mkMS { ms_parents : list vec; ms_pfits : list (list T); ms_sigmas : list T;
                         ms_A : list mat; ms_invC : list mat; ms_pc : list vec; ms_psucc : list T }.
 
+(* __init__: population = the initial parents (genotype, wvalues) *)
+Definition mo_init (dim : nat) (P : mparams) (population : list (vec * list T)) (sigma : T) : mstate :=
+  let m := length population in
+  mkMS (map fst population) (map snd population) (repeat sigma m)
+       (repeat (identity dim) m) (repeat (identity dim) m) (repeat (zeros dim) m) (repeat (mp_ptarg P) m).
+
 (* an individual seen by update: genotype, wvalues, tag ("o" = true / "p" = false, index) *)
 Record mind := mkMI { mi_x : vec; mi_wv : list T; mi_off : bool; mi_pidx : nat }.
 
